@@ -333,6 +333,7 @@ def object_scan(ctx, chk, facts, prog, file, elems):
         chk.error('C15.5: no iteration of the OAM scan found in find_current_line_sprites (anchor lost)')
         return
     sel_bad = row_bad = tile_bad = attr_bad = None
+    covered = set()
     order_bad = None
     limit_ok = False
     nsel = 0
@@ -370,6 +371,15 @@ def object_scan(ctx, chk, facts, prog, file, elems):
         if len(offs) != 1 or 0 not in byk:
             continue
         X = next(iter(offs))
+        # coverage: which OAM entries the guard lets into an iteration (OAM is 0xa0 bytes: the fixed buffer size)
+        lens_ = [y for y in allsyms | set(y2 for d in r.state.decisions for y2 in syms_of(d[0]))
+                 if isinstance(y[2], str) and y[2].startswith('len(') and 'oam' in y[2]]
+        for k_ in range(40):
+            if k_ in covered:
+                continue
+            e2 = env.copy()
+            if all(e2.assume_eq(l_, 0xa0) for l_ in lens_) and e2.assume_eq(X, 4 * k_) and absint.feasible(e2):
+                covered.add(k_)
         # guard: offset < 160 and fewer than ten kept
         for d in r.state.decisions:
             t = d[0]
@@ -461,6 +471,13 @@ def object_scan(ctx, chk, facts, prog, file, elems):
             chk.fail('C15.5', key, 'find_current_line_sprites: %s' % (bad or 'no iteration keeps an object'), file, None)
         else:
             chk.ok('C15.5', key, sample={'clause': what})
+    missing = [k_ for k_ in range(40) if k_ not in covered]
+    if missing:
+        chk.fail('C15.5', 'scan-range', 'find_current_line_sprites: OAM entr%s %s never examined (the scan guard excludes offset '
+                 '%s of the 0xa0-byte OAM)' % ('y' if len(missing) == 1 else 'ies', missing[:6], [hex(4 * k_) for k_ in missing[:6]]),
+                 file, None)
+    else:
+        chk.ok('C15.5', 'scan-range', sample={'entries examined': '0..39 (offsets 0, 4, .., 0x9c)'})
     if limit_ok:
         chk.ok('C15.5', 'ten-per-line', sample={'guard': 'objects kept < 10'})
     else:
